@@ -182,6 +182,8 @@ func buildTypes(u *gengotypes.Universe, t tlTree) (types.Type, error) {
 		return types.NewSlice(subs[0]), nil
 	case "array3":
 		return types.NewArray(subs[0], 3), nil
+	case "array0": // the boundary length
+		return types.NewArray(subs[0], 0), nil
 	case "chan":
 		return types.NewChan(types.SendRecv, subs[0]), nil
 	case "mapS":
@@ -214,6 +216,8 @@ func buildReflect(t tlTree) (reflect.Type, error) {
 		return reflect.SliceOf(subs[0]), nil
 	case "array3":
 		return reflect.ArrayOf(3, subs[0]), nil
+	case "array0":
+		return reflect.ArrayOf(0, subs[0]), nil
 	case "chan":
 		return reflect.ChanOf(reflect.BothDir, subs[0]), nil
 	case "mapS":
